@@ -140,6 +140,13 @@ example : Free (foldOutsideLiterals false "IF (F(a+b, (c)) > 1.0E-3_dp) X = 'It'
 example : roundTripL "IF (F(a+b, (c)) > 1.0E-3_dp) X = 'It''s' // G( 2d0 ) // H( i+1 )".toList false
     = some "IF (F(a+b, (c)) > 1.0E-3_dp) X = 'It''s' // G( 2d0 ) // H(i+1)".toList := by decide +kernel
 example : expConsts (phase1Text discipline "x = f(a+b, 'It''s')".toList true) = [] := by decide +kernel
+/-- with `lower = true` an identifier spelled like a placeholder is harmless (it is folded before the
+    placeholders are inserted): the hypotheses hold although the line itself is not `NoMagic` -/
+example : ¬ NoMagic "X = F2PY_EXPR_TUPLE_1(I+1) // 'a b'".toList ∧
+    Free (foldOutsideLiterals true "X = F2PY_EXPR_TUPLE_1(I+1) // 'a b'".toList) ∧
+    FoundsOK (expConsts (phase1Text discipline "X = F2PY_EXPR_TUPLE_1(I+1) // 'a b'".toList true)) ∧
+    roundTripL "X = F2PY_EXPR_TUPLE_1(I+1) // 'a b'".toList true
+      = some "x = f2py_expr_tuple_1(i+1) // 'a b'".toList := by decide +kernel
 example : expConsts (phase1Text discipline "CALL S(i)".toList false) = [] ∧
     ∀ s, PItem.paren s ∈ splitparen (phase1Text discipline "CALL S(i)".toList false) →
       isSimple (strip (interior s)) = true := by
